@@ -168,6 +168,33 @@ def _dot_roles(model: Model, DT: RuleResult):
                    "conjugate of the scalar the recurrence needs (wrong step for complex systems)" % (nm, len(first[nm]), len(second[nm]), ast.unparse(minority[0])))
 
 
+def krylov_loop_rules(model: Model, prop: str) -> List[RuleResult]:
+    """The adjoint systems of every implicit backward (C02, C04, C06) are solved by cg / bicgstab (more than five unknowns, or a method given in
+    bck_options): a silent non-converged or stale iterate there is a silently wrong gradient.  The warn-or-converged typestate and the stopping
+    threshold of the Krylov loops are therefore part of those properties as well (rule ids LS-W / LS-W2 / LS-P / LS-T / LS-G)."""
+    W = RuleResult(prop, "LS-W", "inner linear solve: every return through a Krylov loop has flag=True or a ConvergenceWarning", min_instances=4)
+    W2 = RuleResult(prop, "LS-W2", "inner linear solve: no ConvergenceWarning on a path where the flag is True", min_instances=2)
+    P = RuleResult(prop, "LS-P", "inner linear solve: the convergence flag is set only under a stopping test with a tolerance parameter and a loop-variant value", min_instances=2)
+    T = RuleResult(prop, "LS-T", "inner linear solve: residual norm compared with max(rtol*|B2|_rows, atol)", min_instances=2)
+    S = RuleResult(prop, "LS-S", "inner linear solve: Krylov protocol (transformed right-hand side, column swap undone)", min_instances=2)
+    G = RuleResult(prop, "LS-G", "inner linear solve: divisor guards replace exact zeros only", min_instances=1)
+    mod = model.module(SOLVE_IMPL)
+    for name in ("bicgstab", "cg"):
+        f = mod.functions.get(name)
+        if f is None:
+            raise AnchorError("%s vanished from %s" % (name, SOLVE_IMPL))
+        check_warn_or_converged(f, W, W2, P)
+    setup = model.func(SOLVE_IMPL, "_setup_linear_problem")
+    for f in sorted(mod.functions.values(), key=lambda f: f.fq):
+        if f.name not in ("cg", "bicgstab"):
+            continue
+        for c in own_nodes(f.node):
+            if isinstance(c, ast.Call) and resolve_call(model, f, c) is setup:
+                _check_threshold_and_protocol(model, f, c, T, S)
+    _denominator_guards(model, G)
+    return [W, W2, P, T, S, G]
+
+
 # ------------------------------------------------------------------------------------------------ C01-G denominator guards
 def _denominator_guards(model: Model, G: RuleResult):
     """The step lengths of the Krylov recurrences are quotients of inner products that are *quadratic* in the residual, so they become
